@@ -4,6 +4,7 @@ import (
 	"fmt"
 	"unicode/utf8"
 
+	"github.com/freeconf/yang/fc"
 	"github.com/freeconf/yang/meta"
 	"github.com/freeconf/yang/val"
 )
@@ -15,10 +16,66 @@ func (check fieldConstraints) CheckFieldPreConstraints(r *FieldRequest, hnd *Val
 	if hnd.Val == nil {
 		return true, nil
 	}
+	if err := check.checkKind(hnd.Val, r.Meta.Type()); err != nil {
+		return false, err
+	}
 	if err := check.checkType(hnd.Val, r.Meta.Type(), 0); err != nil {
 		return false, err
 	}
 	return true, nil
+}
+
+// checkKind is about values that were not made by NewValue for this leaf - handed to Set by the
+// caller, or to the editor by a node of the caller's: a string for a boolean, a list for a leaf,
+// an enum, bit or identity the type does not declare. They are not taken on trust: the plain
+// content of the value has to convert to the type, to a value of the same shape.
+func (check fieldConstraints) checkKind(v val.Value, t *meta.Type) error {
+	want := t.Format()
+	switch want.Single() {
+	case val.FmtAny:
+		return nil
+	case val.FmtEnum, val.FmtBits, val.FmtIdentityRef, val.FmtUnion, val.FmtLeafRef:
+		// membership is part of the type
+	default:
+		if v.Format() == want {
+			return nil
+		}
+	}
+	var plain interface{} = v.Value()
+	switch x := v.(type) {
+	case val.Enum:
+		plain = x.Label
+	case val.EnumList:
+		plain = x.Labels()
+	case val.IdentRef:
+		plain = x.Label
+	case val.IdentRefList:
+		labels := make([]string, len(x))
+		for i := range x {
+			labels[i] = x[i].Label
+		}
+		plain = labels
+	case val.Bits:
+		if x.Labels != nil {
+			plain = x.Labels
+		} else {
+			plain = x.Positions
+		}
+	case val.BitsList:
+		names := make([][]string, len(x))
+		for i := range x {
+			names[i] = x[i].Labels
+		}
+		plain = names
+	}
+	again, err := NewValue(t, plain)
+	if err != nil {
+		return fmt.Errorf("%w. '%s' is not a value of the type of '%s'. %s", fc.BadRequestError, v, t.Ident(), err)
+	}
+	if again == nil || again.Format().IsList() != v.Format().IsList() {
+		return fmt.Errorf("%w. '%s' (%s) is not a value of the type of '%s'", fc.BadRequestError, v, v.Format(), t.Ident())
+	}
+	return nil
 }
 
 // the restrictions of the type a value has to meet: for a leafref those of the leaf it points
